@@ -241,13 +241,36 @@ def paths(meta):
     return {"cases": os.path.join(d, "cases.ndjson"), "events": os.path.join(d, "events.ndjson"), "ir": os.path.join(d, "ir")}
 
 
+class Cases:
+    """id -> case, read from the cases file on demand (the thorough tier has ~700k cases)"""
+
+    def __init__(self, path):
+        self.path = path
+        self.offsets = {}
+        with open(path, "rb") as f:
+            pos = 0
+            for line in f:
+                m = re.search(rb'"id":\s*"([^"]+)"', line[:200]) or re.search(rb'"id":\s*"([^"]+)"', line)
+                self.offsets[m.group(1).decode()] = pos
+                pos += len(line)
+        self.f = open(path, "rb")
+
+    def __getitem__(self, cid):
+        self.f.seek(self.offsets[cid])
+        return json.loads(self.f.readline())
+
+    def __contains__(self, cid):
+        return cid in self.offsets
+
+    def __iter__(self):
+        return iter(self.offsets)
+
+    def __len__(self):
+        return len(self.offsets)
+
+
 def load_cases(path):
-    out = {}
-    with open(path) as f:
-        for line in f:
-            c = json.loads(line)
-            out[c["id"]] = c
-    return out
+    return Cases(path)
 
 
 def grouped_events(path):
@@ -285,29 +308,44 @@ def end_of(evs):
 # trace validation with reject-and-resume
 # ---------------------------------------------------------------------------
 def split_events(src, prefix, parts, transform=None):
-    """Split an events file into `parts` files at case boundaries; transform(input, evs) -> list of events or None."""
-    groups = []
+    """Split an events file into about `parts` files at case boundaries (streaming);
+    transform(input, evs) -> (input, evs) or None to drop the run.  Returns (files, number of runs written)."""
+    total = 0
+    with open(src) as f:
+        for line in f:
+            if line.startswith('{"ev":"input"') or '"ev":"input"' in line[:400]:
+                total += 1
+    per = max(1, -(-total // parts))
+    files = []
+    out = None
+    written = 0
+    seen = 0
     for inp, evs, _ in grouped_events(src):
+        if seen % per == 0:
+            if out is not None:
+                out.close()
+            path = "%s.%d.ndjson" % (prefix, len(files))
+            out = open(path, "w")
+            files.append(path)
+        seen += 1
         if transform is not None:
             res = transform(inp, evs)
             if res is None:
                 continue
             inp, evs = res
-        groups.append((inp, evs))
-    files = []
-    per = max(1, -(-len(groups) // parts))
-    for p in range(parts):
-        chunk = groups[p * per:(p + 1) * per]
-        if not chunk:
-            continue
-        path = "%s.%d.ndjson" % (prefix, p)
-        with open(path, "w") as f:
-            for inp, evs in chunk:
-                f.write(json.dumps(inp, separators=(",", ":")) + "\n")
-                for e in evs:
-                    f.write(json.dumps(e, separators=(",", ":")) + "\n")
-        files.append(path)
-    return files, len(groups)
+        out.write(json.dumps(inp, separators=(",", ":")) + "\n")
+        for e in evs:
+            out.write(json.dumps(e, separators=(",", ":")) + "\n")
+        written += 1
+    if out is not None:
+        out.close()
+    keep = []
+    for path in files:
+        if os.path.getsize(path) == 0:
+            os.remove(path)
+        else:
+            keep.append(path)
+    return keep, written
 
 
 def validate_traces(module, cfg, files, timeout=3000, parallel=6, extra_env=None):
